@@ -24,8 +24,17 @@
      (`IsEmpty`, `TotalCount`, `MinIndex`, `MaxIndex`, `KeyAtRank`, `Add`, `AddWithCount`, `Clear`, `Copy`,
      `Reweight`, `MergeWith`).  Side condition for the adds: int32 index (finite weight `≥ 0`; other weights:
      both sides unchanged, no condition).
-  3. `SkSim a b` for sketches and parametricity of the regenerated sketch functions: `AddWithCount`, `Add`,
-     `GetCount`, `IsEmpty`, `GetZeroCount`, `GetValueAtQuantile`, `GetMaxValue`, `GetMinValue`, `Clear`, `Copy`.
+  3. `SkSim a b` for sketches (same mapping object, same zero count, stores in `Sim`) and parametricity of the
+     regenerated sketch functions, for ANY mapping implementation `M`: `AddWithCount_param`, `Add_param`
+     (same error, related receivers; side condition `Routed32`: the index of the side the value is routed to is an
+     int32), `GetCount_param`, `IsEmpty_param`, `GetZeroCount_param`, `GetValueAtQuantile_param`,
+     `GetMaxValue_param`, `GetMinValue_param` (equal results, no side condition), `Clear_param`, `Copy_param`,
+     `MergeWith_param`, `Reweight_param`.
+  4. `runAdds` (a history of `AddWithCount` calls with the errors returned), `runAdds_param`,
+     `history_observers_param`: from `NewDDSketch m NewBufferedPaginatedStore NewBufferedPaginatedStore`, after any
+     history with int32 routed indexes (refused calls, zero / fractional / non-finite counts included), the errors
+     and every observer agree with the regenerated sketch over the model stores `Store.new .pag`.
+     `DDS/Props/C01GenPag.lean` chains this with `GenSketch2` and `Props/Lift` to C01.
 
   No fuel hypothesis appears in the statements: the instance computes a sufficient fuel itself.
   Core Lean only.
